@@ -7,10 +7,13 @@ CONSTANTS
   ScoreNone = TRUE
   HeapTakeover = 10
   MaxCalls = 3
-  NTerms = 3
-  Family = "flat"
+  NTerms = 2
+  Family = "flat2"
   DropK1 = TRUE
   Queries <- MCQueries
+  FixEmptySnapshot = FALSE
+  FixBoolAdvance = FALSE
+  FixShouldMin = FALSE
   FirstAdvanceOK <- FirstAdvNoQ2
 VIEW View
 INVARIANT ResultOK
